@@ -173,7 +173,10 @@ Definition fsm_input (rfc : bool) (c : cframe) (f : fsm) : fsm * list act :=
   end.
 
 (* variant: [vrep] session logic of /repo HEAD (true) or of the code before the C03 fixes (false); [vrfc] FSM table flavour *)
-Record vr := mkV { vrep : bool; vrfc : bool }.
+Record vr := mkV3 { vrep : bool; vrfc : bool;
+                     vtd : bool   (* the session is torn down when LCP leaves Opened on an authenticated link
+                                     (fixes/C03_pppoe_lcp_down_teardown.patch); false = /repo HEAD without it *) }.
+Definition mkV (rep rfc : bool) : vr := mkV3 rep rfc true.
 
 (* ------------------------------------------------------------------ *)
 (* PPPoE session *)
@@ -437,6 +440,8 @@ Fixpoint set_nth {A} (n : nat) (x : A) (l : list A) : list A :=
 
 Definition tag (i : nat) (l : list out) : list (nat * out) := map (fun o => (i, o)) l.
 
+Definition is_lcp_down (o : out) : bool := match o with GLcpDown => true | _ => false end.
+
 (* run handler h on slot i *)
 Definition on_slot (st : state) (i : nat) (h : mach -> mach) : state * list (nat * out) :=
   match nth_error (sl st) i with
@@ -472,7 +477,14 @@ Definition step (v : vr) (st : state) (e : event) : state * list (nat * out) :=
   match e with
   | EvOpen i => on_slot st i (open_session v i)
   | EvFrame i f =>
-    on_slot st i (fun m => if live (ms m) then handle_frame v i f m else m)
+    (* handleSession: handlePPP under the session lock; with [vtd], when the frame made LCP leave Opened on a link that
+       had been authenticated (onLCPDown ran — GLcpDown — with the session in Network/Open, and set linkEnded) the
+       dead-peer teardown follows at once *)
+    on_slot st i (fun m =>
+      if live (ms m) then
+        let m1 := handle_frame v i f m in
+        if vtd v && in_net (ph (ms m)) && existsb is_lcp_down (mo m1) then terminate (upd (set_live false) m1) else m1
+      else m)
   | EvAAA k a =>
     match find_idx (pend_matches v k) (sl st) 0 with
     | Some i =>
